@@ -4,6 +4,11 @@ Import ListNotations.
 Require Import SR.Base.Res SR.Base.Dec SR.Gen.JsonTypeParams SR.Gen.EstructParams SR.Spec.Encode SR.Spec.Fits SR.Spec.SizeCfg
   SR.Spec.Layout SR.Model.Layout SR.Model.Estruct SR.Model.Conversion SR.Spec.SchemaTruth SR.Model.JsonType
   SR.Proofs.EstructP.
+(* The definitions of this development that occur in theorem statements (Props/) live in Spec/JsonTypeWf.v (audit item G1).
+   The abbreviations keep the qualified names JsonTypeP.name of other files resolving; they are parsing-only aliases. *)
+Require Export SR.Spec.JsonTypeWf.
+Notation wf8 := SR.Spec.JsonTypeWf.wf8 (only parsing).
+Notation wf8_kids := SR.Spec.JsonTypeWf.wf8_kids (only parsing).
 Open Scope N_scope.
 
 (* ================================================================== part 1: one elementary item *)
@@ -603,19 +608,6 @@ Proof. intros H _. apply (proj1 build_shape). exact H. Qed.
    build_json_schema without the accumulator, unions_ok the well-formedness of REDEFINES among siblings. *)
 Require SR.Proofs.LayoutP.
 Module L := SR.Proofs.LayoutP.
-
-(* well-formed record descriptions for this property: REDEFINES among the children of a non-repeated group
-   name an earlier sibling that is not itself a redefiner (L.unions_ok, as in C01), no REDEFINES inside a
-   repeated group (there build_json_schema raises); OCCURS DEPENDING ON allowed anywhere *)
-Fixpoint wf8 (e : env) (x : item) : bool :=
-  match x with
-  | Elem _ _ _ _ => true
-  | Group _ oc _ ks =>
-      wf8_kids e ks && L.unions_ok e [] ks
-      && match oc with Once => true | _ => match redef_targets ks with [] => true | _ => false end end
-  end
-with wf8_kids (e : env) (ks : items) : bool :=
-  match ks with INil => true | ICons x xs => wf8 e x && wf8_kids e xs end.
 
 Lemma ids_bridge : (forall x, L.ids x = ids_of x) /\ (forall ks, L.ids_kids ks = ids_kids ks).
 Proof.
